@@ -365,7 +365,7 @@ Definition r_body (h : impl_hdr) (b : body) : toks :=
   | BCloneStruct name sh fs => r_clone_struct name sh fs
   | BCloneEnum vs => r_clone_enum vs
   | BDebugStruct d =>
-      fmt_sig ++ tbrace (r_debug_expr d (fun f => q "& self ." ++ r_member (fl_member f)))
+      fmt_sig ++ tbrace (r_debug_expr d (fun f => q "&& self ." ++ r_member (fl_member f)))
   | BDebugEnum vs =>
       fmt_sig ++
       tbrace (match_self vs ++
